@@ -644,6 +644,53 @@ def value_default_case(ctx, seed):
     ctx.nontrivial((seed, how))
 
 
+def kwargs_history_case(ctx, seed):
+    """A valid schema that has been validated, then copied through to_kwargs() with one rule-violating edit: what
+    validation found out about the first object must not be carried over to the second."""
+    import graphql as G
+    rng = random.Random(seed)
+    M = SchemaGen(rng, adversarial=0.0).model()
+    try:
+        if R8.check(M):
+            return
+        S = build_programmatic(M, 'literal') if rng.random() < 0.5 else build_schema(render_sdl(M))
+        if validate_schema(S):
+            return
+        if rng.random() < 0.5:
+            graphql_sync(S, '{ __typename }')
+    except Exception:  # noqa: BLE001
+        return
+    kw = S.to_kwargs()
+    edit = rng.choice(['no-query', 'same-root', 'empty-object', 'empty-union', 'reserved-name'])
+    if edit == 'no-query':
+        kw['query'] = None
+        expect = 'root:query-missing'
+    elif edit == 'same-root':
+        kw['mutation'] = kw['query']
+        expect = 'root:same-type-for-two-operations'
+    elif edit == 'empty-object':
+        kw['types'] = list(kw['types'] or []) + [G.GraphQLObjectType('EmptyObject', {})]
+        expect = 'empty:fields'
+    elif edit == 'empty-union':
+        kw['types'] = list(kw['types'] or []) + [G.GraphQLUnionType('EmptyUnion', [])]
+        expect = 'empty:union-members'
+    else:
+        kw['types'] = list(kw['types'] or []) + [G.GraphQLObjectType('__Reserved', {'f': G.GraphQLField(G.GraphQLInt)})]
+        expect = 'name:reserved'
+    how = 'to_kwargs-of-a-validated-schema:' + edit
+    case = {"kind": "kwargs-history", "seed": seed}
+    try:
+        S2 = G.GraphQLSchema(**kw)
+    except Exception as e:  # noqa: BLE001
+        ctx.count("not_constructible:programmatic")
+        ctx.label("construction_exceptions", type(e).__name__)
+        return
+    ctx.case()
+    ctx.count("kwargs_histories_checked")
+    judge(ctx, S2, [expect], how, {**case, "how": how, "mutators": [edit]})
+    ctx.nontrivial((seed, how))
+
+
 def random_sdl_case(ctx, rng, k):
     s = src.gen_source(rng, 'sdl', names=['Query', 'A', 'B', 'I', 'U', 'E', 'In', 'Int', 'String', 'f', 'g', 'x', 'ID', 'Mutation', 'S'], max_depth=2,
                        hostile=0.05, keywords=0.02)
@@ -666,6 +713,8 @@ def run_shard(ctx):
         model_case(ctx, base + k, k)
     for k in range(ctx.n(2500, 40000)):
         value_default_case(ctx, base + 7_000_000 + k)
+    for k in range(ctx.n(1500, 25000)):
+        kwargs_history_case(ctx, base + 9_000_000 + k)
     rng = ctx.rng
     for k in range(ctx.n(12000, 200000)):
         random_sdl_case(ctx, rng, k)
@@ -676,6 +725,8 @@ def replay(ctx, case):
         model_case(ctx, case["seed"], 1)
     elif case["kind"] == "value-default":
         value_default_case(ctx, case["seed"])
+    elif case["kind"] == "kwargs-history":
+        kwargs_history_case(ctx, case["seed"])
     else:
         try:
             S = build_schema(case["sdl"], assume_valid_sdl=case["assume_valid_sdl"])
